@@ -1,5 +1,5 @@
 //! slicec-bounded <check>   -- prints one JSON object per counterexample (at most 5) and a summary.
-//! checks: plugin (C19)  preproc (C06)  decode (C11)  totals (C07)  visitor (C20)  fileset (C17)  lexical (C01)  snippet (C09)  lints (C13)  spans (C09)  request (C08)  comments (C16)  fidelity (C02)
+//! checks: plugin (C19)  preproc (C06)  decode (C11)  totals (C07)  visitor (C20)  fileset (C17)  lexical (C01)  snippet (C09)  lints (C13)  spans (C09)  request (C08)  comments (C16)  fidelity (C02)  scopes (C03)
 use std::collections::{BTreeMap, HashMap, HashSet};
 
 mod oracle_comments;
@@ -16,6 +16,7 @@ mod definition_types;
 #[path = "@REPO@/slicec/src/slice_file_converter.rs"]
 #[allow(dead_code, unused)]
 mod slice_file_converter;
+mod oracle_scopes;
 mod oracle_snippet;
 mod oracle_spans;
 mod oracle_visitor;
@@ -111,9 +112,10 @@ fn main() {
         "request" => oracle_request::run(),
         "comments" => oracle_comments::run(),
         "fidelity" => oracle_fidelity::run(),
+        "scopes" => oracle_scopes::run(),
         "one" => oracle_lexical::one(&std::env::args().nth(2).unwrap_or_default()),
         _ => {
-            eprintln!("usage: slicec-bounded plugin|preproc|decode|totals|visitor|fileset|lexical|snippet|lints|spans|request|comments|fidelity");
+            eprintln!("usage: slicec-bounded plugin|preproc|decode|totals|visitor|fileset|lexical|snippet|lints|spans|request|comments|fidelity|scopes");
             2
         }
     };
